@@ -8,12 +8,15 @@ import wire
 def gen(seed, nepisodes, nops, prefix='r'):
     rng = random.Random(seed)
     for i in range(nepisodes):
-        devs = rng.sample(range(0, 65536), 12) + [0, 65535]
+        devs = rng.sample(range(0, 65536), rng.choice([1, 2, 3, 12])) + [0, 65535]
+        last = devs[0]
         ifs = [wire.be(x, 4) for x in rng.sample(range(0, 2 ** 32), 6)] + [[0, 0, 0, 0], [255, 255, 255, 255]]
         ops = [{'op': 'new'}]
         for _ in range(nops):
             r = rng.random()
-            d = rng.choice(devs)
+            # recency: the device that was touched last is touched again half of the time (remove then update again, ...)
+            d = last if rng.random() < 0.5 else rng.choice(devs)
+            last = d
             if r < 0.3:
                 p = wire.packet(rng, 'cm', rng.choice([36, 60, 200]))
                 p['dev'], p['st'] = d, rng.randrange(256)
